@@ -98,10 +98,29 @@ var c18Family = []c18Fam{
 	{c18T(new(map[string][]int)), true}, {c18T(new(map[string]map[string]*string)), true},
 	{c18T(new([]*int)), true}, {c18T(new([]**int8)), true}, {c18T(new([3]*int16)), true}, {c18T(new([]c18S5)), true}, {c18T(new([2]c18S5)), true},
 	{c18T(new(c18S6)), true}, {c18T(new([]*c18S6)), true}, {c18T(new(map[string]*big.Int)), true}, {c18T(new([]*big.Float)), true},
+	{c18T(new(c18Emb)), true}, {c18T(new([]c18Emb)), true}, // embedded (anonymous) struct field carrying a tag
 	{c18T(new([]cty.Value)), false}, // decode target only: a list of dynamic values has no single element type
 }
 
 var c18IntTypes = c18Family[:10]
+
+// Go types only ImpliedType (and the bridge type) is asked about: the error cases
+// (arrays, big numbers, structs without tags, at any depth) and a few more shapes.
+type c18InnerNoTag struct {
+	I c18NoTag `cty:"i"`
+}
+
+type c18DeepArr struct {
+	A int                  `cty:"a"`
+	M map[string][]*[2]int `cty:"m"`
+}
+
+var c18ImpliedOnly = []reflect.Type{
+	c18T(new(c18TaggedArr)), c18T(new([]big.Int)), c18T(new(map[string][2]int)), c18T(new(c18NoTag)), c18T(new(*c18NoTag)), c18T(new([]c18NoTag)),
+	c18T(new(struct{})), c18T(new(map[string]*big.Float)), c18T(new([0]int)), c18T(new(c18InnerNoTag)), c18T(new(c18DeepArr)), c18T(new(***c18S2)),
+	c18T(new(map[string]map[string][]c18S3)), c18T(new([][][]uint8)), c18T(new(*[]*map[string]*bool)), c18T(new([2][3]big.Int)), c18T(new(map[string]cty.Value)),
+	c18T(new([]*cty.Value)), c18T(new(*cty.Value)),
+}
 
 // ---- wire form of Go types and values (see lean/Driver/HGocty.lean) --------
 
@@ -1017,8 +1036,12 @@ func runC18RoundTrip(ctx *Ctx) {
 			fams = append(fams, f)
 		}
 	}
-	// ImpliedType / bridge type of every member of the family
-	for _, f := range c18Family {
+	// ImpliedType / bridge type of every member of the family and of the implied-only shapes
+	allImplied := append([]c18Fam{}, c18Family...)
+	for _, rt := range c18ImpliedOnly {
+		allImplied = append(allImplied, c18Fam{rt, false})
+	}
+	for _, f := range allImplied {
 		tw := encGoTy(f.rt)
 		bt, pure, berr := c18Bridge(f.rt)
 		var it cty.Type
@@ -1037,7 +1060,19 @@ func runC18RoundTrip(ctx *Ctx) {
 			if pure && (ierr != nil || !it.Equals(bt)) {
 				ctx.Fail(Failure{Site: "implied", Sig: "ImpliedType differs from the documented mapping", What: "ImpliedType result", Input: tw, GoLit: f.rt.String(), Outcome: impl})
 			}
+			if !pure && ierr == nil {
+				ctx.Fail(Failure{Site: "implied", Sig: "ImpliedType accepts an array or big number", What: "ImpliedType documents no cty type for arrays and big numbers", Input: tw, GoLit: f.rt.String(), Outcome: impl})
+			}
+		} else {
+			ctx.Add("gocty.bridge", "err", tw)
+			if ierr == nil {
+				ctx.Fail(Failure{Site: "implied", Sig: "ImpliedType accepts a struct without cty tags", What: "a struct without tagged fields has no cty type", Input: tw, GoLit: f.rt.String(), Outcome: impl})
+			}
 		}
+		if impl == "panic" {
+			ctx.Fail(Failure{Site: "implied", Sig: "ImpliedType panics", What: "ImpliedType must return a type or an error", Input: tw, GoLit: f.rt.String(), Outcome: impl})
+		}
+		ctx.Tag("implied:" + impl[:2])
 		ctx.Eval("implied "+tw, c18Nested(f.rt))
 	}
 	one := func(f c18Fam, g *c18Gen, depth int) {
